@@ -13,6 +13,7 @@ KEY_ALPH = list("AB0_ :;\\/\n") + ["//", "\r", "#", "É", "ミ"]
 KNOWN_KEYS = [
     "TITLE", "SUBTITLE", "ARTIST", "CREDIT", "MUSIC", "BANNER", "OFFSET", "BPMS", "STOPS", "FREEZES", "DELAYS",
     "BGCHANGES", "ANIMATIONS", "ATTACKS", "DISPLAYBPM", "VERSION", "WARPS", "NOTES2", "NOTES", "NOTEDATA", "FOO", "",
+    "VERSION ", " VERSION", "VERSION\n", "VERSIONS", "NOTES ", " NOTEDATA",
 ]
 SSC_CHART_KEYS = [
     "STEPSTYPE", "DESCRIPTION", "DIFFICULTY", "METER", "RADARVALUES", "CHARTNAME", "CHARTSTYLE", "CREDIT", "MUSIC",
@@ -114,7 +115,11 @@ def sm_chart_specs(draw):
     notes = draw(st.one_of(NOTE_TEXT, stripped(long_ok=True)))
     notes = msdgap.safe_start(notes)
     extra = draw(st.one_of(st.none(), st.none(), st.lists(values(allow_none=False, long_ok=False).map(msdgap.safe_start), min_size=1, max_size=3)))
-    return {"fields": fields + [notes], "extra": extra, "via": draw(st.sampled_from(["from_msd", "from_msd", "blank_edit"]))}
+    via = draw(st.sampled_from(["from_msd", "from_msd", "blank_edit", "empty_shuffled"]))
+    spec = {"fields": fields + [notes], "extra": extra, "via": via}
+    if via == "empty_shuffled":
+        spec["order"] = list(draw(st.permutations(range(6))))
+    return spec
 
 
 @st.composite
@@ -231,6 +236,27 @@ def sim_ops(draw, fmt):
     raise AssertionError(kind)
 
 
+@st.composite
+def boundary_constructions(draw, fmt):
+    """one simfile whose note data (or one value) carries an escaped-on-save token exactly on a multiple of 4096 / 65536"""
+    k = draw(st.sampled_from([1, 2, 16, 16, 32]))
+    back = draw(st.integers(-1, 3))
+    tok = draw(st.sampled_from(["//", "//", "//", ":", ";", "\\"]))
+    body = "0" * max(0, k * 4096 - back) + tok + draw(st.sampled_from(["", "0", "\n0000"]))
+    body = msdgap.safe_text(body).strip()
+    where = draw(st.sampled_from(["notes", "notes", "value"]))
+    ops = []
+    if where == "value":
+        ops.append(["set", draw(st.sampled_from(["BGCHANGES", "TITLE", "ATTACKS"])), body])
+    if fmt == "sm":
+        ops.append(["chart_add", {"fields": ["dance-single", "", "Hard", "9", "0,0", body if where == "notes" else "0000"], "extra": None, "via": "from_msd"}])
+    else:
+        nk = draw(st.sampled_from(["NOTES", "NOTES2"]))
+        ops.insert(0, ["set", "VERSION", "0.83"])
+        ops.append(["chart_add", {"base": "empty", "del": [], "items": [["STEPSTYPE", "dance-single"], [nk, body if where == "notes" else "0000"]]}])
+    return {"kind": "history", "fmt": fmt, "base": "empty", "ops": ops}
+
+
 def bases(fmt):
     corpus = ["corpus:nekonabe/nekonabe.sm", "corpus:blank/blank.sm"] if fmt == "sm" else ["corpus:L9/L9.ssc", "corpus:blank/blank.ssc", "corpus:Springtime/Springtime.ssc"]
     return st.sampled_from(["empty", "empty", "blank", "blank"] + corpus)
@@ -245,6 +271,9 @@ def histories(draw, fmt, max_ops=12):
 def constructions(draw, fmt):
     """direct construction: an empty simfile filled with pairs and charts"""
     ps = draw(st.lists(pairs(fmt), max_size=6, unique_by=lambda kv: kv[0]))
+    if draw(st.integers(0, 7)) == 0:
+        first = draw(st.sampled_from(["VERSION ", " VERSION", "VERSION\n", "\tVERSION", "VERSIONS", "XVERSION"] if fmt == "sm" else ["VERSION"]))
+        ps = [[first, draw(st.sampled_from(["0.83", "", None]))]] + [p for p in ps if p[0] != first]
     cs = draw(st.lists(chart_specs(fmt), max_size=3))
     ops = [["set", k, v] for k, v in ps] + [["chart_add", c] for c in cs]
     return {"kind": "history", "fmt": fmt, "base": "empty", "ops": ops}
